@@ -88,9 +88,9 @@ class AttestationsDB(Database):
         """
         Return the schema for the database.
         """
-        schema = ""
+        schema = "BEGIN;\n"
         if version == 1:
-            schema = f"""
+            schema += f"""
                      CREATE TABLE IF NOT EXISTS {self.db_name}(
                      hash                 BLOB,
                      blob                 LONGBLOB,
@@ -100,7 +100,7 @@ class AttestationsDB(Database):
                      );
                      """
         elif version == 2:
-            schema = f"""
+            schema += f"""
                      CREATE TABLE IF NOT EXISTS {self.db_name}(
                      hash                 BLOB,
                      blob                 LONGBLOB,
@@ -112,7 +112,8 @@ class AttestationsDB(Database):
                      """
         schema += ("CREATE TABLE IF NOT EXISTS option(key TEXT PRIMARY KEY, value BLOB);\n"
                    "DELETE FROM option WHERE key = 'database_version';\n"
-                   f"INSERT INTO option(key, value) VALUES('database_version', '{self.LATEST_DB_VERSION!s}');\n")
+                   f"INSERT INTO option(key, value) VALUES('database_version', '{self.LATEST_DB_VERSION!s}');\n"
+                   "COMMIT;\n")
         return schema
 
     def get_upgrade_script(self, current_version: int) -> str | None:
